@@ -201,6 +201,7 @@ def gen_registry(rng, recipes):
                      "Documentation": {"Description": "fake", "Message": "Fake message for " + code}}
                 if typ != "BD" or rng.random() < 0.3:
                     e["SRC"]["Type"] = typ
+                e["Documentation"]["Message"] += " [%s]" % typ
                 if rng.random() < 0.5:
                     e["Documentation"]["Message"] = "Value %1 and %2 for " + code
                     e["Documentation"]["MessageArgSources"] = ["SRCWord6", "SRCWord9"]
